@@ -77,5 +77,5 @@ class Recorder:
             # decorated functions start at the decorator line: accept a small window
             covered = any((path, l) in self.hit for l in range(line - 3, line + 1))
             rows.append({'callable': f'{rel}:{name}', 'executed': covered,
-                         'note': scope_notes.get(name, scope_notes.get(f'{rel}:{name}', ''))})
+                         'note': '' if covered else scope_notes.get(f'{rel}:{name}', scope_notes.get(name.split('.')[-1], ''))})
         return rows
